@@ -35,6 +35,8 @@ KV_NAMES = ("metadata", "validation", "connectionoptions", "values")
 HEXES = ["#FF00aa", "#abc", "#00ff0080", "#ABC", "#000000", "#ffFFff", "#12345678", "#a1B2c3"]
 BIND_NAMES = ["item", "NAME", "my_attr", "x1", "pop_2000", "a"]
 REGEXES = ["/^a.b$/", "/x|y/", "/a b/", "/^[0-9]+$/", "/./", "/(a|b)c/"]
+LISTX_ITEMS = ["a", "road", "rail road", "A", "2_Klass", "a-b", "c_d", "1", "12", "007", "+5", "-1", "1e3", "5.", ".5", "2.50", "1.0", "10",
+               "TRUE", "false", "True", "ON", "x.y", "it's", "caf\u00e9", "0", "00", "1E+2", "-0.0", "end"]
 LISTX = ["{a,b,c}", "{1,2,3}", "{road,rail}", "{x}", "{a, b}", "{rail road,b}", "{ a ,b }", "{A,b,C}"]
 KV_KEYS = ["wms_title", "WMS_SRS", "k 1", "a", "ows_enable_request", "Wfs_Abstract", "gml_include_items", "x", "key2",
            "default_x", "qstring", "oWs_TiTle"]
@@ -275,6 +277,18 @@ class Gen:
         self.count("str:" + cls)
         return s, cls
 
+    def listx(self):
+        """a list expression: items are literal strings for MapServer, whatever they look like"""
+        ch = self.ch
+        if ch.chance(1, 3):
+            return ch.choice(LISTX)
+        items = [ch.choice(LISTX_ITEMS) for _ in range(ch.int(1, 4))]
+        sp = lambda: ch.choice(["", "", " ", "  "])  # noqa: E731
+        # (the grammar reads an item after a blank as a bare word and then trips over '.' or '+': `{a, 2.5}` and
+        #  `{ x.y}` are rejected with a parse error - a limitation no property speaks about; such items follow the
+        #  comma directly)
+        return "{" + ",".join(("" if ("." in it or "+" in it) else sp()) + it + sp() for it in items) + "}"
+
     def number(self, integer, lo=None, hi=None, lo_x=False, hi_x=False):
         """int, or decimal literal with <= 4 fractional digits; within bounds."""
         ch = self.ch
@@ -300,6 +314,13 @@ class Gen:
             cands = [x for x in SPECIAL_FLOATS if lo <= x <= hi and not (lo_x and x == lo) and not (hi_x and x == hi)]
             if cands:
                 return ch.choice(cands)
+        if ch.chance(1, 8):
+            # floats that need all 17 significant digits (0.30000000000000004, 51.477811111111116)
+            m17 = ch.int(10 ** 15, 10 ** 17 - 1)
+            v = (-1 if ch.bool() else 1) * m17 / 10 ** ch.int(0, 17)
+            if "e" not in repr(v) and lo <= v <= hi and not (lo_x and v == lo) and not (hi_x and v == hi):
+                self.count("num:17_digits")
+                return v
         k = ch.choice([1, 2, 3, 4])
         m = ch.int(int(ilo * 10 ** k), int(ihi * 10 ** k))
         v = m / 10 ** k
@@ -320,7 +341,7 @@ class Gen:
                 # NAME 7: an unquoted number at a string-typed keyword is loaded as a number (and printed back quoted)
                 return ("int", ch.int(0, 99999)) if ch.bool() else ("float", ch.choice([0.5, 7.25, 10.0, 3.125]))
             if k == "expression" and slot.alts[0].ref == "expression.json" and ch.chance(1, 6):
-                return "listx", ch.choice(LISTX)   # list expression {a,b,c}: unquoted, kept verbatim
+                return "listx", self.listx()   # list expression {a,b,c}: unquoted, kept verbatim
             if k == "symbol" and ch.chance(1, 2):
                 return "str", ch.choice(strings.WORDS)  # symbol names: usually plain (bare-able) words
             s, _ = self.string(multi_alt=multi)
